@@ -17,6 +17,22 @@ Theorem accepted_refs_resolve d :
 Proof. exact (refs_resolve d). Qed.
 Print Assumptions accepted_refs_resolve.
 
+(* the converse, for the transport mappings: every error the HTTP endpoint validation
+   reports (missing path / query / header / cookie / body / MapParams attribute, response
+   header / cookie / body / Tag attribute, undeclared error, error header) is about a
+   reference of that endpoint that really dangles - no false alarm *)
+Theorem transport_error_has_a_dangling_reference d s m h e :
+  In e (validate_http d s m h) -> exists r, In r (http_refs d s m h) /\ ~ resolves r.
+Proof. exact (http_errors_dangling d s m h e). Qed.
+Print Assumptions transport_error_has_a_dangling_reference.
+
+(* hence, once the DSL phase reported nothing for the endpoint, its validation is silent
+   exactly when every one of its references resolves *)
+Theorem transport_accepted_iff_refs_resolve d s m h : dsl_errors_http m h = [] ->
+  (validate_http d s m h = [] <-> forall r, In r (http_refs d s m h) -> resolves r).
+Proof. exact (http_refs_iff d s m h). Qed.
+Print Assumptions transport_accepted_iff_refs_resolve.
+
 (* every reference is checked, not only the first per type: the `validated` memo is keyed
    by the attribute, so EVERY attribute that can be reached from a method payload / result
    through object fields and array elements is visited, and an accepted design has no
@@ -191,7 +207,55 @@ Theorem table_agrees_with_documented :
 Proof. split; [exact table_agrees_b|exact (entries_agree_calls table documented table_agrees_b)]. Qed.
 Print Assumptions table_agrees_with_documented.
 
+(* ---- Part 4: reported errors name the offending function and expression ---- *)
+
+(* every expression other than the top level has a non-empty name, whatever names the
+   design gives (empty ones become "unnamed ...") and however deep the nesting *)
+Theorem every_expression_has_a_name p : p <> PTop -> eval_name p <> ""%string.
+Proof. exact (eval_name_nonempty p). Qed.
+Print Assumptions every_expression_has_a_name.
+
+(* the error recorded for a DSL function called in expression p is non-empty and has the
+   form "invalid use of <function> in <name of p>" *)
+Theorem incompatible_error_names_function_and_expression f p : p <> PTop ->
+  incompatible_msg f p = ("invalid use of " ++ f ++ " in " ++ eval_name p)%string /\ eval_name p <> ""%string.
+Proof. exact (incompatible_msg_located f p). Qed.
+Print Assumptions incompatible_error_names_function_and_expression.
+
+(* a misplaced call records exactly that message, for every function of the table and
+   every context of the grid; only the top level has no expression to name *)
+Theorem misplaced_call_is_located e c : f_kind e = KStrict -> allowed e c = false ->
+  located_call c e = [incompatible_msg (f_name e) (ctx_path c)] /\
+  (c <> CTop -> incompatible_msg (f_name e) (ctx_path c) =
+                ("invalid use of " ++ f_name e ++ " in " ++ eval_name (ctx_path c))%string).
+Proof.
+  intros Hk Ha. split; [exact (located_call_misplaced e c Hk Ha)|].
+  intro Hc. apply incompatible_msg_located. intro H. apply Hc. exact (ctx_path_top c H).
+Qed.
+Print Assumptions misplaced_call_is_located.
+
+(* a response names its endpoint, an endpoint its service, a route its endpoint: the name
+   of a nested expression ends with the name of the expression it belongs to *)
+Theorem nested_expression_names_its_parent q :
+  (exists pre, eval_name (PHTTPResponse (Some q)) = (pre ++ eval_name q)%string) /\
+  (exists pre, eval_name (PGRPCResponse (Some q)) = (pre ++ eval_name q)%string) /\
+  (forall verb path, exists pre, eval_name (PRoute verb path q) = (pre ++ eval_name q)%string).
+Proof. exact (nested_name_ends_with_parent q). Qed.
+Print Assumptions nested_expression_names_its_parent.
+
 (* ---- non-vacuity ---- *)
+
+(* Tag(...) called inside the HTTP(...) of a method: the message goa records *)
+Example tag_in_endpoint_message :
+  match List.find (fun e => String.eqb (f_name e) "Tag") table with
+  | Some e => located_call CHTTPEndpoint e = ["invalid use of Tag in service ""gs"" HTTP endpoint ""gm"""%string]
+  | None => False
+  end.
+Proof. vm_compute. reflexivity. Qed.
+
+Example unnamed_method_response_name :
+  eval_name (PHTTPResponse (Some (PHTTPEndpoint "" ""))) = "HTTP response of unnamed service unnamed HTTP endpoint"%string.
+Proof. reflexivity. Qed.
 
 (* the designs that used to be accepted with a dangling reference are rejected *)
 Example dangling_tag_rejected : validate tag_design = [ETag 2].
@@ -227,6 +291,13 @@ Example mutual_recursion_validated :
   required_errors g [0] = Some [9; 9] /\
   exists v, validate_attr g (graph_fuel g) [] 0 = Some v /\ List.length v = 4.
 Proof. split; [vm_compute; reflexivity|eexists; split; vm_compute; reflexivity]. Qed.
+
+(* the rejected header of the example above is a reference that does not resolve *)
+Example dangling_header_is_dangling :
+  let m := mkM (SObj [1]) [] (mkR SEmpty None None) [] [] (Some (mkH [] [] [9] [] BDefault None [] [])) in
+  In (RPayload m 9) (http_refs (mkD [] [] [] [] [] [] [] [] []) (mkS [] [] [] []) m (mkH [] [] [9] [] BDefault None [] [])) /\
+  ~ resolves (RPayload m 9).
+Proof. split; [left; reflexivity|]. simpl. intros [H|[]]. discriminate. Qed.
 
 (* two API key schemes (names 5 and 6): the method requires scheme 5, its payload only
    has the key attribute of scheme 6: rejected; with the right attribute: accepted *)
